@@ -18,7 +18,7 @@ Primed(nn, en, big, ro) ==
   /\ st' = [r \in Reps |-> IdleRec]
   /\ script' = [r \in Reps |-> NaRec]
   /\ ch' = <<>> /\ errCount' = 0 /\ got' = 0 /\ vlist' = <<>> /\ allOk' = TRUE /\ i' = 1
-  /\ isRO' = FALSE /\ commitOk' = TRUE /\ bad' = FALSE
+  /\ isRO' = FALSE /\ commitOk' = TRUE /\ bad' = FALSE /\ round' = 1
   /\ shadow' = Const(Vols, Const(Reps, "none"))
   /\ live' = Const(Vols, Const(Reps, "C"))
   /\ open' = {}
@@ -46,8 +46,10 @@ TBy == /\ (IsEvent("call") \/ IsEvent("ret")) /\ Strict /\ Ev.v = 2 /\ hasBy /\ 
 TInternal == ok /\ l <= N /\ l > 1 /\ Trace[l].ev # "reset" /\ Internal /\ UNCHANGED <<hasBy, kitvars>>
 TPost == /\ IsEvent("post") /\ Strict
          /\ Ev.done = (pc = "done")
+         /\ ~Ev.done => ~ENABLED Internal    \* Vacuum has not returned: the master must be blocked on an RPC
          /\ Range(Ev.w) = WNow
          /\ UNCHANGED <<vars, hasBy>>
-TraceNext == TraceReset \/ TraceSkip \/ TPre \/ TCall \/ TRet \/ TBy \/ TInternal \/ TPost
+TRound == IsEvent("round") /\ Strict /\ MNextRound /\ UNCHANGED hasBy
+TraceNext == TraceReset \/ TraceSkip \/ TPre \/ TCall \/ TRet \/ TBy \/ TInternal \/ TPost \/ TRound
 TraceSpec == TraceInit /\ [][TraceNext]_tvars
 =============================================================================
